@@ -641,6 +641,8 @@ type result struct {
 	SawGet       bool                     `json:"saw_get"` // the tree still has the initial Get
 	Panic        string                   `json:"panic,omitempty"`
 	Livelock     string                   `json:"livelock,omitempty"`
+	Bad          bool                     `json:"bad,omitempty"`     // outcome already decided against the tree
+	Skipped      bool                     `json:"skipped,omitempty"` // not run: VERIF_C04_MAXFAIL reached
 	Inconclusive string                   `json:"inconclusive,omitempty"`
 	Backoffs     int                      `json:"backoffs"`
 	Reconnects   int                      `json:"reconnects"`
@@ -690,6 +692,7 @@ func runProgram(g *rig, p *program) (res *result) {
 		}
 		res.Batches = s.batches
 		res.Events = s.events
+		res.Bad = !s.prefixOK() || res.Livelock != "" || res.Panic != ""
 		// keep both streams prefixes of one log for the next session on this rig
 		for n := range g.nodes {
 			for s.applied[n] < len(s.batches) {
@@ -967,6 +970,7 @@ func runRandom(g *rig, id int, seed int64, maxK, maxRep int) (res *result) {
 		}
 		res.Batches = s.batches
 		res.Events = s.events
+		res.Bad = !s.prefixOK() || res.Livelock != "" || res.Panic != ""
 	}()
 
 	// adders: node a is "fast", node b lags (initial delay and/or a pause)
@@ -1153,8 +1157,11 @@ func TestMain(m *testing.M) {
 	os.Exit(m.Run())
 }
 
+var failures int64
+
 func runPool(t *testing.T, n int, job func(g *rig, i int) *result, outPath string) {
 	dir := scratch(t)
+	maxFail, _ := strconv.ParseInt(os.Getenv("VERIF_C04_MAXFAIL"), 10, 64)
 	out, err := os.Create(outPath)
 	if err != nil {
 		t.Fatal(err)
@@ -1176,7 +1183,17 @@ func runPool(t *testing.T, n int, job func(g *rig, i int) *result, outPath strin
 			defer wg.Done()
 			defer g.close()
 			for i := range jobs {
-				res := job(g, i)
+				var res *result
+				if maxFail > 0 && atomic.LoadInt64(&failures) >= maxFail {
+					// enough evidence against this tree; do not spend minutes
+					// in back-off loops of a broken reader
+					res = &result{ID: i, Skipped: true, Delivered: [][2]int64{}}
+				} else {
+					res = job(g, i)
+					if res.Bad {
+						atomic.AddInt64(&failures, 1)
+					}
+				}
 				b, err := json.Marshal(res)
 				if err != nil {
 					b, _ = json.Marshal(&result{ID: res.ID, Inconclusive: "marshal: " + err.Error()})
